@@ -242,6 +242,47 @@ func c09Format12(r *run.Run) {
 				}
 			}
 		})
+	r.Explore(explore.Config{Name: "C09.format12-glyph-wrap"},
+		"all maps of the four consecutive codes U+0041..U+0044 (and of U+1F600..U+1F603) to {unmapped, 0, 1, 2, 0xFFFE, 0xFFFF}: glyph ids of a group must not run past 0xFFFF; library decode == specification decode == original",
+		func(c *explore.Ctx) {
+			base := []uint32{0x41, 0x1F600}[c.Choose(2, "first code")]
+			vals := []int{-1, 0, 1, 2, 0xFFFE, 0xFFFF}
+			m := map[uint32]uint16{}
+			f12 := cmap.Format12{}
+			for i := uint32(0); i < 4; i++ {
+				if v := vals[c.Choose(len(vals), fmt.Sprintf("glyph of code %d", i))]; v >= 0 {
+					m[base+i] = uint16(v)
+					f12[base+i] = glyph.ID(v)
+				}
+			}
+			if len(m) >= 2 {
+				c.Nontrivial()
+			}
+			c.Sample(func() any { return fmtMap(m) })
+			enc := f12.Encode(0)
+			c.Outcome(enc)
+			ref, err := refcmap.Decode(enc)
+			if err != nil {
+				c.Fail("C09.format12-ref", "glyph wrap", "specification decoder rejects Encode output: %v (%s)", err, fmtMap(m))
+				return
+			}
+			tab := cmap.Table{{PlatformID: 3, EncodingID: 10}: enc}
+			sub, err := tab.Get(cmap.Key{PlatformID: 3, EncodingID: 10})
+			if err != nil {
+				c.Fail("C09.format12-lib", "glyph wrap", "library rejects Encode output: %v (%s)", err, fmtMap(m))
+				return
+			}
+			for p := base - 2; p < base+6; p++ {
+				if ref[p] != m[p] {
+					c.Fail("C09.format12-ref", "glyph wrap", "specification decoder maps %#x to %d, want %d (%s; subtable % x)", p, ref[p], m[p], fmtMap(m), enc)
+					return
+				}
+				if got := sub.Lookup(rune(p)); uint16(got) != m[p] {
+					c.Fail("C09.format12-lib", "glyph wrap", "library maps %#x to %d, want %d (%s)", p, got, m[p], fmtMap(m))
+					return
+				}
+			}
+		})
 	r.Explore(explore.Config{Name: "C09.format12-sizes"},
 		"format 12 maps with {1, 255, 256, 65535, 65536} entries (the property's bound; the reader refuses larger maps) laid out as one group, as groups of two codes with gaps, or as single codes (one group per entry), starting at code 0 / 0x20 / 0x10000: the subtable written by Encode is accepted by the library and by the specification decoder, and every entry, the codes next to the ends and code 0 decode to the glyph written",
 		func(c *explore.Ctx) {
